@@ -32,10 +32,10 @@ impl<T: Message + Clone> OutputMessage for T {}
 #[cfg(not(feature = "output-port-v2"))]
 pub use v1::OutputPort;
 
-#[cfg(feature = "output-port-v2")]
-pub use v2::OutputPort;
 #[cfg(all(feature = "output-port-v2", slawlor_ractor_verif))]
 pub use v2::verif_v2_probe;
+#[cfg(feature = "output-port-v2")]
+pub use v2::OutputPort;
 
 #[cfg(not(feature = "output-port-v2"))]
 mod v1 {
